@@ -611,7 +611,7 @@ def run_deser_jobs(cases, jobs):
 
 def run(rep, tier):
     rnd = random.Random(core.seed() * 1000003 + 17)
-    ncases = 600 if tier == "quick" else 4000
+    ncases = 500 if tier == "quick" else 4000
     proofs_ok, model_ok = core.standard_proof_obligations(
         rep, "C17", ["theories/Check/C17chk.vo", "theories/Ser/VersionedProofs.vo"])
     rep.assumptions += [
